@@ -1,4 +1,24 @@
+import regen
+
+
+def do_regen(ctx):
+    regen.goext("c16", "C16Locks.lean")
+
+
 THEOREMS = {
+    "Dawgs.Props.C16Conc": [
+        "Dawgs.RW.linearizable",
+        "Dawgs.RW.progress",
+        "Dawgs.C16.ConcProps.sieve_lawful",
+        "Dawgs.C16.ConcProps.nemap_lawful",
+        "Dawgs.C16.ConcProps.sieve_linearizable",
+        "Dawgs.C16.ConcProps.nemap_linearizable",
+        "Dawgs.C16.ConcProps.sieve_deadlock_free",
+        "Dawgs.C16.ConcProps.nemap_deadlock_free",
+    ],
+    "Dawgs.Props.C16Locks": [
+        "Dawgs.C16.Locks.lock_skeleton_ok",
+    ],
     "Dawgs.Props.C16": [
         "Dawgs.C16.Props.sieve_inv",
         "Dawgs.C16.Props.sieve_refines_map",
@@ -12,6 +32,14 @@ THEOREMS = {
 
 
 def nontrivial(ops, impl):
+    if any(o.startswith("conc ") for o in ops):
+        # concurrent case: at least two operations overlap in real time
+        for r in impl:
+            evs = [e.split(":") for e in r.split(" | ")[0].split(";") if e.count(":") == 6]
+            evs.sort(key=lambda e: int(e[5]))
+            if any(int(evs[i - 1][6]) > int(evs[i][5]) for i in range(1, len(evs))):
+                return True
+        return False
     # at least one hit and one miss *after* some put (an eviction, refusal or delete was observed)
     seen_put = False
     hit = miss = False
@@ -25,7 +53,7 @@ def nontrivial(ops, impl):
 
 
 def finding_key(suite, ops, line, msg):
-    kind = next((o.split()[1] for o in ops if o.startswith("new ")), "?")
+    kind = next((o.split()[1] for o in ops if o.startswith("new ") or o.startswith("conc ")), "?")
     cls = msg.split()[1] if len(msg.split()) > 1 else "reject"
     return "C16:%s:%s" % (kind, cls)
 
@@ -34,20 +62,26 @@ SPEC = {
     "id": "C16",
     "title": "caches bounded, coherent, safe under concurrency",
     "level": "proof",
-    "lean_modules": ["Dawgs.Props.C16"],
+    "regen": do_regen,
+    "lean_modules": ["Dawgs.Props.C16", "Dawgs.Props.C16Conc", "Dawgs.Props.C16Locks"],
     "theorems_by_module": THEOREMS,
-    "gate_modules": ["Dawgs.Model.C16", "Dawgs.Spec.C16", "Dawgs.Proofs.C16", "Dawgs.Props.C16"],
-    "suites": [{"name": "c16", "model_suite": "c16", "monitor_suite": "c16mon", "keep_prefix": 2}],
+    "gate_modules": ["Dawgs.Model.C16", "Dawgs.Spec.C16", "Dawgs.Proofs.C16", "Dawgs.Props.C16", "Dawgs.Model.RWLock",
+                     "Dawgs.Proofs.RWLock", "Dawgs.Model.C16Conc", "Dawgs.Props.C16Conc", "Dawgs.Props.C16Locks"],
+    "suites": [{"name": "c16", "model_suite": "c16", "monitor_suite": "c16mon", "keep_prefix": 2, "thorough_seeds": 1},
+               {"name": "c16conc", "monitor_suite": "c16lin", "keep_prefix": 1, "race_in_thorough": True, "shrink_budget": 5}],
     "nontrivial": nontrivial,
     "finding_key": finding_key,
-    "rule": "cases = exhaustive op sequences (len<=4 quick / <=6 thorough) over a 7-9 letter alphabet x capacities x {sieve,nemap}, plus random "
+    "rule": "sequential cases = exhaustive op sequences (len<=4 quick / <=5 thorough) over a 7-9 letter alphabet x capacities x {sieve,nemap}, plus random "
             "histories (5-65 ops, keys ~ capacity+1..3) from splitmix64(VERIF_SEED); a case is non-trivial when, after a put, it observes both "
-            "a hit and a miss (eviction, refusal or delete took effect); distinct = distinct op-line sequences (sha1)",
+            "a hit and a miss (eviction, refusal or delete took effect); distinct = distinct op-line sequences (sha1); concurrent cases (suite c16conc): 2-4 goroutines x 2-4 ops on 2-3 keys against the real cache, history with invoke/return stamps "
+            "checked for linearizability by the Lean monitor, non-trivial when two operations overlap in real time",
     "expected_branches": ["branch.get_hit", "branch.get_miss", "branch.sieve.delete_at_hand", "branch.sieve.hand_nonnil", "branch.sieve.put_evict"],
     "trusted_base": ["container/list, Go map, sync.RWMutex, sync/atomic semantics (modelled)",
                      "verif-tagged read-only hook cache/verif_on.go (VerifDump) used to compare internal queue/hand state"],
     "assumptions": ["keys/values are small non-negative ints in the tie (the Go code is generic over K,V)",
-                    "concurrent part: see Props/C16Conc (lock skeleton T-tie)"],
+                    "concurrent part: linearizability and deadlock-freedom are proved on the RW-lock LTS (Props/C16Conc) whose lock skeleton (Put/Delete under Lock, Get under RLock "
+                    "with atomic effects only, helpers reached only from writers) is re-extracted from cache/*.go and checked by decide (Props/C16Locks); real concurrent histories "
+                    "are judged by the Lean linearizability checker; the thorough tier runs them under the Go race detector"],
 }
 
 MANIFEST = {
